@@ -107,6 +107,31 @@ def haplotype_read(ref, variants, alleles, a, b, eqx=False):
     return "".join(seq), [tuple(c) for c in cigar], a
 
 
+def spliced_read(ref, variants, alleles, a, x, y, b, eqx=False):
+    """read covering [a, x) and [y, b) with a reference skip (N) of y - x bases in between"""
+    s1, c1, start = haplotype_read(ref, variants, alleles, a, x, eqx)
+    s2, c2, _ = haplotype_read(ref, variants, alleles, y, b, eqx)
+    return s1 + s2, c1 + [("N", y - x)] + c2, start
+
+
+def aligned_blocks(start, cigar):
+    """reference intervals [s, e) that are aligned (M/=/X/D consumed inside a block; N separates blocks)"""
+    blocks = []
+    p = start
+    cur = p
+    for op, n in cigar:
+        if op in ("M", "=", "X", "D"):
+            p += n
+        elif op == "N":
+            if p > cur:
+                blocks.append((cur, p))
+            p += n
+            cur = p
+    if p > cur:
+        blocks.append((cur, p))
+    return blocks
+
+
 def snap(variants, x, left):
     """move a read boundary out of any variant's REF span (so that every overlapped variant is fully covered)"""
     for v in variants:
